@@ -38,11 +38,20 @@ impl<T: ToJSON> JSONArrayOfObjects<T> {
 
 impl<T: FromJSON + New> JSONArrayOfObjects<T> {
     pub fn from_json(json : String) -> Result<Vec<T>, String> {
-        let items = RawUnprocessedJSONArray::split_into_vector_of_strings(json).unwrap();
+        let boxed_items = RawUnprocessedJSONArray::split_into_vector_of_strings(json);
+        if boxed_items.is_err() {
+            let message = boxed_items.err().unwrap();
+            return Err(message);
+        }
+        let items = boxed_items.unwrap();
         let mut list: Vec<T> = vec![];
         for item in items {
             let mut object = T::new();
-            object.parse(item).unwrap();
+            let boxed_parse = object.parse(item);
+            if boxed_parse.is_err() {
+                let message = boxed_parse.err().unwrap();
+                return Err(message);
+            }
             list.push(object);
         }
         Ok(list)
